@@ -80,6 +80,7 @@ CLS = {"R": "HEX_REG_CLASS_INT_REGS", "P": "HEX_REG_CLASS_PRED_REGS", "C": "HEX_
        "M": "HEX_REG_CLASS_MOD_REGS", "N": "HEX_REG_CLASS_INT_REGS", "G": "HEX_REG_CLASS_GUEST_REGS",
        "S": "HEX_REG_CLASS_SYS_REGS"}
 SRC_LETTERS, DST_LETTERS, RW_LETTERS = "stuvw", "de", "xyz"
+EXPL_MAX = {"R": 31, "P": 3, "C": 31, "M": 1, "G": 31, "S": 127}  # architectural register numbers
 
 
 def classify(tok):
@@ -107,7 +108,7 @@ def classify(tok):
         return dict(kind="reg", ident=("alias", "HEX_REG_ALIAS_" + name), width=w, signed=False,
                     new=bool(m.group(2)), acc="alias", cls="alias", pc=(name == "PC" and not m.group(2)))
     m = RE_EXPL.match(tok)
-    if m:
+    if m and int(m.group(2)) <= EXPL_MAX[m.group(1)] and (m.group(3) is None or int(m.group(3)) <= EXPL_MAX[m.group(1)]):
         cls, n1, n2, new = m.groups()
         w = 8 if cls == "P" else 32
         c = CLS[cls]
